@@ -85,6 +85,15 @@ func (q *timedQueue) push(peerID peer.ID) {
 	q.Lock()
 	defer q.Unlock()
 
+	// a peer is queued at most once: an item left from an earlier push of the same peer (the peer
+	// was removed and added again in the meantime) must not release it before the new ttl is over
+	for i, it := range q.items {
+		if it.ID == peerID {
+			q.items = append(q.items[:i], q.items[i+1:]...)
+			break
+		}
+	}
+
 	q.items = append(q.items, item{
 		ID:        peerID,
 		createdAt: q.clock.Now(),
